@@ -493,6 +493,24 @@ def iso_scenarios(tier):
                 ('near_viaalias', 'near', 'viaalias', ('struct', 'near', 'Nhold', {'h': ('tag', 'far', 'Fm', 'on')}), [], {}, False, True, 'rpc'),
             ]
             out.append(('iso:chain:mid-route=%s:far-route=%s' % (mid_has_route, far_has_route), [('near.stone', near), ('mid.stone', mid_t), ('far.stone', far_t), CFG], calls))
+    # (b2) a namespace that defines no alias of its own and types its argument fields with imported aliases (of nullable, defaulted, plain types)
+    for routes_in_lib in (False, True):
+        lib = ('namespace lib\n\nunion Lm\n    on\n    off\n\nalias OptRev = String?\nalias Mode = Lm\nalias Cnt = Int32\nalias Names = List(String)\n\nstruct Larg\n    l Int32\n' +
+               ('\nroute lr(Larg, Void, Void)\n' if routes_in_lib else ''))
+        use = ('namespace use\n\nimport lib\n\nstruct Uarg\n    path String\n    cnt lib.Cnt = 3\n    rev lib.OptRev\n    mode lib.Mode = off\n    names lib.Names?\n\nstruct Uchild extends Uarg\n    extra lib.OptRev\n\n'
+               'route get(Uarg, Void, Void)\n\nroute getc(Uchild, Void, Void)\n')
+        calls = [('use_get', 'use', 'get', ('struct', 'use', 'Uarg', {'path': 'p', 'cnt': 3, 'mode': ('tag', 'lib', 'Lm', 'off')}), ['p'], {}, False, True, 'rpc'),
+                 ('use_get', 'use', 'get', ('struct', 'use', 'Uarg', {'path': 'p', 'cnt': 4, 'rev': 'r', 'mode': ('tag', 'lib', 'Lm', 'on'), 'names': ['a']}), ['p'],
+                  {'cnt': 4, 'rev': 'r', 'mode': ('tag', 'lib', 'Lm', 'on'), 'names': ['a']}, False, True, 'rpc'),
+                 ('use_getc', 'use', 'getc', ('struct', 'use', 'Uchild', {'path': 'p', 'cnt': 3, 'mode': ('tag', 'lib', 'Lm', 'off'), 'extra': 'e'}), ['p'], {'extra': 'e'}, False, True, 'rpc')]
+        out.append(('iso:imported-aliases:lib-routes=%s' % routes_in_lib, [('use.stone', use), ('lib.stone', lib), CFG], calls))
+    # (b3) route names that differ only in style map to one Python name: the backends must refuse them, whatever else the namespace holds
+    for a, b in (('get/metadata', 'get_metadata'), ('getMeta', 'get_meta'), ('a/b', 'a_b')):
+        for extra_v2 in (False, True):
+            text = 'namespace st\n\nstruct Arg\n    a Int32\n\nstruct Brg\n    b String\n\nroute %s(Arg, Void, Void)\n\nroute %s(Brg, Void, Void)\n' % (a, b)
+            if extra_v2:
+                text += '\nroute other(Void, Void, Void)\n\nroute other:2(Void, Void, Void)\n'
+            out.append(('iso:style-clash:%s~%s:%s' % (a, b, 'with-v2' if extra_v2 else 'v1-only'), [('st.stone', text), CFG], 'must-refuse'))
     # (c) pairs of literal defaults: every ordered pair of literals of different kinds in one argument struct
     lits = [('Boolean', 'true', True), ('Boolean', 'false', False), ('Float64', '1.0', 1.0), ('Float64', '0.0', 0.0), ('Float32', '1', 1.0), ('Int32', '1', 1), ('Int64', '0', 0),
             ('String', '"1"', '1'), ('String', '"true"', 'true'), ('UInt32', '1', 1), ('Float64', '-0.0', -0.0), ('String', '"1.0"', '1.0')]
@@ -510,6 +528,12 @@ def iso_task(item):
     label, specs, calls = item
     pkg, u, fail = gen_client(specs)
     inputs = {'scenario': label, 'specs': specs, 'shape_class': label.split(':')[1]}
+    if calls == 'must-refuse':
+        # two routes whose Python names coincide cannot both get "one method per route version, named from namespace, route and version"
+        if pkg is not None:
+            pkg.close()
+            return {'outcome': 'iso:clash-accepted', 'viol': [viol('style-clash-accepted:isolated', 'routes whose generated names coincide were accepted by the Python backends (%s)' % label, inputs)], 'n': 1}
+        return {'outcome': 'iso:clash-refused', 'viol': [], 'n': 1}
     if pkg is None:
         return {'outcome': 'iso:' + fail[0].split(':')[0], 'viol': [viol('isolated:%s:%s' % (label.split(':')[1], fail[0]), 'isolated scenario %s: %s\n%s' % (label, fail[0], (fail[1] or '')[-600:]), inputs)], 'n': 1}
     oc = collections.Counter()
